@@ -1,36 +1,30 @@
 (* C13 - executable comparison functions used by the correspondence run against the real
-   tables (definitions only, no proofs). *)
+   tables of one device profile (definitions only, no proofs). *)
 From Coq Require Import List Bool Arith String.
 From PV Require Import Common.Cases C01.Model C01.Spec C13.Model C13.Gen.
 Import ListNotations.
 
-Definition entry (p : proto) (i : iface) :=
-  find (fun e => proto_eqb (fst (fst e)) p && iface_eqb (snd (fst e)) i) real_impl.
+Definition profile_units (n : nat) : list unit :=
+  match nth_error profiles n with Some (_, us) => us | None => [] end.
 
-Definition reg_real (order : list proto) (i : iface) (m : string) : registry :=
-  fun p =>
-    if memp p order
-    then match entry p i with
-         | Some (_, _, ms) => Some {| truthy := real_truthy; has_attr := real_subclass;
-                                     overrides := existsb (String.eqb m) ms |}
-         | None => None
-         end
-    else None.
+(* the SetupData added to the device object, by position in the profile's table *)
+Definition units_of (n : nat) (ids : list nat) : list unit :=
+  flat_map (fun k => match nth_error (profile_units n) k with Some u => [u] | None => [] end) ids.
 
-(* (connect order, feature, observed answer of the real features interface) *)
-Definition check_real_feature (c : list proto * feature * fres) : bool :=
-  let '(order, f, obs) := c in
-  fres_eqb (feature_of default_rt feats has_features has_push push_updates order f) obs.
+(* (profile, ids of the added SetupData in order, feature, observed answer of the real features
+   interface) *)
+Definition check_real_feature (c : nat * list nat * feature * fres) : bool :=
+  let '(n, ids, f, obs) := c in
+  fres_eqb (feature_of_units default_rt push_updates (units_of n ids) f) obs.
 
-(* (connect order, interface, member, gate, observed result of calling the member through the
-   device object, no takeover).  play_url is refused while the gate is closed; start reaches
-   every connected push updater. *)
-Definition check_real_invoke (c : list proto * iface * string * bool * callres) : bool :=
-  let '(order, i, m, gate, obs) := c in
-  let dedup := snd (connect default_rt feats has_features order) in
-  let k := expected_kind i m in
+(* (profile, ids, interface, member, gate, observed result of calling the member through the device
+   object, no takeover).  play_url is refused while the gate is closed; start reaches every
+   connected push updater. *)
+Definition check_real_invoke (c : nat * list nat * iface * string * bool * callres) : bool :=
+  let '(n, ids, i, m, gate, obs) := c in
+  let us := eff (units_of n ids) [] in
   callres_eqb
-    (facade_call k (text_order i) None [] gate
-                 (filter (fun p => match entry p i with Some _ => true | None => false end) dedup)
-                 (reg_real order i m))
+    (facade_call (expected_kind i m) (text_order i) None [] gate
+                 (map u_proto (filter (fun u => u_has u i) us))
+                 (reg_units us i m))
     obs.
